@@ -376,9 +376,50 @@ def c02_4(rep, ix):
             ok2 = len(un) == 1 and [u(x) for x in un[0].targets[0].elts] == [u(kv["args"]), u(kv["kwargs"])]
             rep.check(ok2, R, ix.site(f, d), "'args' and 'kwargs' are the two results of _get_arguments(ctx.arguments())", key="dict|args")
     # modes list: children of arrayrow in order without separators
-    ms = [a for a in walk_shallow(fn) if isinstance(a, ast.Assign) and u(a.targets[0]) == "modes"]
-    okm = len(ms) == 1 and " ".join(u(ms[0].value).split()) in ("[m for m in ctx.arrayrow().getChildren() if m.getText() != ',']", "ctx.arrayrow().expression()", "list(ctx.arrayrow().expression())")
-    rep.check(okm, R, ix.site(f, ms[0]) if ms else ix.site(f), "the mode list is the expression children of arrayrow in source order", "got `%s`" % (u(ms[0].value) if ms else None), key="modes list")
+    from .c11 import mode_loops
+    from ..py.guards import reaching_def
+
+    def children_source(e, at):
+        """True if e denotes the expression children of ctx.arrayrow() in source order (separators removed)"""
+        if isinstance(e, ast.Call) and u(e.func) in ("enumerate", "list", "iter", "tuple") and len(e.args) == 1:
+            return children_source(e.args[0], at)
+        if isinstance(e, ast.Name):
+            d = reaching_def(fn, e.id, at)
+            return d is not None and children_source(d, at)
+        t = " ".join(u(e).split())
+        if t == "ctx.arrayrow().expression()":
+            return True
+        if isinstance(e, (ast.ListComp, ast.GeneratorExp)) and len(e.generators) == 1 and isinstance(e.generators[0].target, ast.Name) and isinstance(e.elt, ast.Name):
+            g = e.generators[0]
+            v = g.target.id
+            return e.elt.id == v and " ".join(u(g.iter).split()) == "ctx.arrayrow().getChildren()" and [" ".join(u(c).split()) for c in g.ifs] in (
+                ["%s.getText() != ','" % v], ["isinstance(%s, blackbirdParser.ExpressionContext)" % v])
+        return None if t != "ctx.arrayrow().getChildren()" else "raw"
+
+    loops = mode_loops(fn)
+    okm, got, where = False, None, ix.site(f)
+    if len(loops) == 1:
+        l = loops[0]
+        where = ix.site(f, l)
+        got = " ".join(u(l.iter).split())
+        cs = children_source(l.iter, l)
+        if cs == "raw":
+            # all children are iterated: the separators must be skipped before the element is evaluated
+            tv = [x.id for x in ast.walk(l.target) if isinstance(x, ast.Name)]
+            first = l.body[0] if l.body else None
+            okm = isinstance(first, ast.If) and len(first.body) == 1 and isinstance(first.body[0], ast.Continue) and not first.orelse and " ".join(u(first.test).split()) in (
+                [t_ for v in tv for t_ in ("%s.getText() == ','" % v, "not isinstance(%s, blackbirdParser.ExpressionContext)" % v)])
+        else:
+            okm = bool(cs)
+    else:
+        ms = [a for a in walk_shallow(fn) if isinstance(a, ast.Assign) and u(a.targets[0]) == "modes"]
+        if len(ms) == 1:
+            where, got = ix.site(f, ms[0]), " ".join(u(ms[0].value).split())
+            if isinstance(ms[0].value, ast.ListComp) and "_expression(" in u(ms[0].value.elt) and len(ms[0].value.generators) == 1:
+                okm = bool(children_source(ms[0].value.generators[0].iter, ms[0])) and children_source(ms[0].value.generators[0].iter, ms[0]) != "raw"
+            else:
+                okm = bool(children_source(ms[0].value, ms[0])) and children_source(ms[0].value, ms[0]) != "raw"
+    rep.check(okm, R, where, "the mode list is the expression children of arrayrow in source order", "got `%s`" % got, key="modes list")
 
 
 # ---------------------------------------------------------------------------------------- C02.7 non-numeric literals
